@@ -212,6 +212,12 @@ def check_program(p):
         s_par, vals = prog.render(q, cls, True)
     except Exception as e:
         return [("raises:" + type(e).__name__, "parameterised rendering raised %r; inline is %r" % (e, s_inline))]
+    if type(q).__name__ == "_SetOperation" and not hasattr(type(q), "get_parameterized_sql"):
+        # a set operation is a statement like any other; without the method the call falls into __getattr__ and fails with TypeError
+        try:
+            q.get_parameterized_sql(ctx)
+        except Exception as e:
+            out.append(("gps_missing", "get_parameterized_sql on a set operation raised %r" % (e,)))
     if hasattr(type(q), "get_parameterized_sql"):
         try:
             s2, v2 = q.get_parameterized_sql(ctx)
